@@ -65,6 +65,7 @@ structure CM where
   isNumTerm : UInt8 → Bool       -- `readValue`: byte allowed on deck after a number token (0 included)
   numberOk : List UInt8 → Bool   -- strconv.ParseInt(…,10,64) or ParseFloat(…,64) succeeds on the token
   known : List UInt8 → Bool      -- root.GetType(token) ≠ nil
+  depthLimit : Option Nat := none  -- `MaxParseDepth` when the nested constructs call `deeper()` (D03 repaired)
 
 variable (cm : CM)
 
@@ -78,6 +79,12 @@ def P.enter (p : P) : P :=
   let d := p.depth + 1
   { p with depth := d, maxDepth := if p.maxDepth < d then d else p.maxDepth }
 def P.leave (p : P) : P := { p with depth := p.depth - 1 }
+
+/-- `deeper()` fails: entering one more nested construct would exceed the limit -/
+def tooDeep (cm : CM) (p : P) : Bool :=
+  match cm.depthLimit with
+  | some l => decide (l < p.depth + 1)
+  | none => false
 
 /-- `if p.line == 0 { p.line = 1; p.col = 1 }` -/
 def P.initPos (p : P) : P := if p.line == 0 then { p with line := 1, col := 1 } else p
@@ -202,6 +209,7 @@ def readType : Nat → P → (Option Ty × Option Err) × P
     | (some b, p) =>
       if b == 0 then ((none, none), p)           -- `return` inside the switch
       else if b == 91 then
+        if tooDeep cm (reRead p) then ((none, some (reRead p).perr), reRead p) else
         match readType n (reRead p).enter with
         | ((t, some e), p) => ((t, some e), p.leave)
         | ((t, none), p) =>
@@ -329,9 +337,11 @@ def readValue : Nat → P → Option Err × P
            else if cm.numberOk tok then (none, p)
            else (some p.perr, p))
       else if b == 91 then
+        if tooDeep cm (reRead p) then (some (reRead p).perr, reRead p) else
         let r := readListBody n (reRead p).enter
         (r.1, r.2.leave)
       else if b == 123 then
+        if tooDeep cm (reRead p) then (some (reRead p).perr, reRead p) else
         let r := readObjBody n (reRead p).enter
         (r.1, r.2.leave)
       else
